@@ -13,6 +13,8 @@ STREAMS = [
      "Middleware.trace_run vs http Trace, grpc UnaryServerTrace / StreamServerTrace"),
     ("chain", "cases_chain.txt", "chain_case", "chain_mismatches",
      "Middleware.chain vs server -> WrapDoer / UnaryClientTrace / StreamClientTrace -> server"),
+    ("stack", "cases_stack.txt", "stack_case", "stack_mismatches",
+     "Middleware.run_stack vs middleware chains (request-id, trace, Log, Debug, PopulateRequestContext, StreamCanceler, ...) in every order"),
     ("capture", "cases_capture.txt", "capture_case", "capture_mismatches",
      "Middleware.capture / sent vs ResponseCapture over httptest.ResponseRecorder and a net/http server"),
     ("sampler", "cases_sampler.txt", "N * Z * Z * bool", "sampler_mismatches",
